@@ -278,8 +278,14 @@ def shared_service_scenario(draw, conf):
     ev.append(["P", a, "%s acctA pwA" % draw(st.sampled_from(["+x", "+x!", "+"]))])
     ev.append(["P", b, "%s acctB pwB" % draw(st.sampled_from(["+x", "+x!", "+!"]))])
     how = draw(st.sampled_from(["MORE", "AGAIN", "MORE", "OK"]))
+    early_drop = False
     if how == "MORE":
-        ev += [["X", a, S, "MORE say friend", "cur"], ["P", a, "mellon"]]
+        ev += [["X", a, S, "MORE say friend", "cur"]]
+        if draw(st.integers(0, 3)) == 0:
+            # the service is dropped while its challenge is still unanswered
+            ev.append(["reconf", {"services": [list(s_) for s_ in conf["services"] if s_[0] != S]}])
+            early_drop = True
+        ev += [["P", a, "mellon"]]
     elif how == "AGAIN":
         ev += [["X", a, S, "AGAIN wrong password", "cur"], ["P", a, "+x acctA pwA2"]]
     for o in others:
@@ -289,7 +295,8 @@ def shared_service_scenario(draw, conf):
     for o in others:
         if draw(st.booleans()):
             ev.append(["X", b, o, "OK", "cur"])
-    ev.append(["reconf", {"services": [list(s_) for s_ in conf["services"] if s_[0] != S]}])
+    if not early_drop:
+        ev.append(["reconf", {"services": [list(s_) for s_ in conf["services"] if s_[0] != S]}])
     ev.append(["X", b, S, draw(st.sampled_from(["OK acctB:2", "OK acctB:2", "NO not you", "MORE riddle", "AGAIN later", "OK"])), "cur"])
     for o in others:
         ev.append(["X", b, o, "OK", "cur"])
@@ -365,7 +372,7 @@ def history_s(draw, pid, tier, conf=None, max_clients=None, distinct_ids=False, 
         conf = draw(conf_s(pid, tier))
     if pid in ("C02", "C03") and "iauth_xquery" not in conf["modules"] and "iauth_class" not in conf["modules"]:
         pass
-    if pid in ("C02", "C03", "C05") and 1 <= len(conf["services"]) <= 5 and any(s_[1] in ("login", "login-ipr", "combined") for s_ in conf["services"]) \
+    if pid in ("C02", "C03", "C05", "C10") and 1 <= len(conf["services"]) <= 5 and any(s_[1] in ("login", "login-ipr", "combined") for s_ in conf["services"]) \
             and "iauth_xquery" in conf["modules"] and draw(st.integers(0, 13)) == 0:
         return {"conf": conf, "events": shared_service_scenario(draw, conf)}
     if pid in ("C03", "C06", "C01") and draw(st.integers(0, 59)) == 0:
